@@ -1448,6 +1448,10 @@ def typearg_cases(jobs):
             if e["k"] == "inst":
                 return base[e["c"]]
             if e["k"] == "metaof":
+                if e["m"] == "EXACT":
+                    from ovld.types import Exactly
+
+                    return Exactly[type]
                 return metas_[("base:" if e.get("via") == "base" else "") + e["m"]]
             raise ValueError(e)
 
